@@ -9,6 +9,8 @@
 (*   "pos"  all regions (incl. 6 mixed / nested shape groups) x a 13 x 13 probe grid *)
 (*   "tv"   all time intervals on 0..6, all velocity intervals on -1..3, combos      *)
 (*   "mix"  64 goal states with several constraints x 64 probes; + second goal state*)
+(*   "file" 4 lanelet-referenced goal regions written to a file and read back; the  *)
+(*          scenario and / or the planning problem set are moved (4 motions x 4 orders) *)
 (*   "movp" / "movo"  goals that are MOVED (translate_rotate by an integer translation *)
 (*          and a quarter turn) before the query: 8 position goals x 8 motions x the   *)
 (*          moved probe grid + probes at the old location; 4 angle goals x 4 motions   *)
@@ -125,7 +127,25 @@ MovTrajs(c, m) == IF c # "movp" THEN <<>> ELSE
                   [j \in 1..6 |-> LET k == <<0, 30, 60, 84, 100, 140>>[j] IN
                                    [i \in 1..3 |-> WithT(MoveState(MovPBase[k + 1 + 14 * (i - 1)], m), i)]]
 
-Classes == {"ori", "pos", "tv", "mix"} \cup MovClasses
+(* ---- goal read from a file: lanelet-referenced goal positions; scenario and / or planning problem set moved ---- *)
+(* road network (doubled coordinates): A = [0,4]x[0,1], B = [0,4]x[1,2] (left of A), C = [4,8]x[0,1] (successor of A)   *)
+LanA == <<0, 0, 8, 2>>   LanB == <<0, 2, 8, 4>>   LanC == <<8, 0, 16, 2>>
+FileLanes == <<LanA, LanB, LanC>>                                      \* the whole network, also lanelets no goal refers to
+FileGoals == { <<GS(FullT, Lanelets(<<LanA>>), NoC, NoC)>>,
+               <<GS(FullT, Lanelets(<<LanA, LanB>>), NoC, Iv(1, 2))>>,
+               <<GS(Iv(2, 4), Lanelets(<<LanB, LanC>>), Ang(-3, 3), NoC)>>,
+               <<GS(FullT, Lanelets(<<LanC>>), NoC, NoC), GS(FullT, Rect(<<0, 0, 4, 4>>), NoC, NoC)>> }   \* lanelet goal + shape goal
+FileMoves == <<[t |-> <<3, -2>>, q |-> 0], [t |-> <<0, 0>>, q |-> 1], [t |-> <<-4, 6>>, q |-> 2], [t |-> <<3, -2>>, q |-> 3]>>
+FileHists == <<<<"scn">>, <<"scn", "pps">>, <<"pps", "scn">>, <<"pps">>>>           \* plus <<>> (as read), emitted once
+FileXs == <<-1, 0, 1, 4, 8, 9, 15, 16, 17>>
+FileBase == [i \in 1..63 |-> KS(3, <<FileXs[((i - 1) % 9) + 1], ((i - 1) \div 9) - 1>>, <<-4, 0, 3>>[(i % 3) + 1], 0, 1 + (i % 2), 0)]
+(* probes: where the goal was, where it is after one motion, and where a goal that moved TWICE would be *)
+FileProbes(m) == FileBase \o [i \in DOMAIN FileBase |-> MoveState(FileBase[i], m)]
+                          \o [i \in DOMAIN FileBase |-> MoveState(MoveState(FileBase[i], m), m)]
+FileTrajs(m)  == [j \in 1..4 |-> LET k == <<10, 12, 28, 30>>[j] IN                    \* walks along +x through the lanelets
+                                  [i \in 1..3 |-> WithT(MoveState(FileBase[k + 2 * (i - 1)], m), 1 + i)]]
+
+Classes == {"ori", "pos", "tv", "mix", "file"} \cup MovClasses
 Goals1(c) == CASE c = "ori" -> {GS(FullT, NoC, o, NoC) : o \in OriAll}
                [] c = "pos" -> {GS(FullT, p, NoC, NoC) : p \in Regions}
                [] c = "tv"  -> {GS(t, NoC, NoC, NoC) : t \in TimeAll} \cup {GS(FullT, NoC, NoC, v) : v \in VelAll}
@@ -133,15 +153,16 @@ Goals1(c) == CASE c = "ori" -> {GS(FullT, NoC, o, NoC) : o \in OriAll}
                [] c = "mix" -> MixGS
                [] c = "movp" -> MovPGoals
                [] c = "movo" -> MovOGoals
+               [] c = "file" -> {}                        \* file goals are whole regions: see Init
 Probes(c) == CASE c = "ori" -> OriProbes [] c = "pos" -> PosProbes [] c = "tv" -> TVProbes [] c = "mix" -> MixProbes
-               [] c = "movp" -> MovPBase [] c = "movo" -> OriProbes
+               [] c = "movp" -> MovPBase [] c = "movo" -> OriProbes [] c = "file" -> FileBase
 
 VARIABLES cls, goal, s
 vars == <<cls, goal, s>>
 Init == /\ cls \in Classes
-        /\ goal \in {<<g>> : g \in Goals1(cls)}
+        /\ goal \in (IF cls = "file" THEN FileGoals ELSE {<<g>> : g \in Goals1(cls)})
         /\ s \in (IF Gen THEN {Probes(cls)[1]} ELSE Range(Probes(cls)))
-AddGoal  == /\ Len(goal) = 1 /\ (Gen => cls = "mix")
+AddGoal  == /\ Len(goal) = 1 /\ (Gen => cls = "mix") /\ cls # "file"
             /\ \E g \in G2For(cls) : goal' = Append(goal, g) /\ Admissible(Append(goal, g), s)
             /\ UNCHANGED <<cls, s>>
 TurnMore == /\ ~Gen /\ s.kind = "ks" /\ s.thint = 0 /\ s.th + Turn <= 2 * Turn
@@ -170,6 +191,11 @@ LawMoved        == (cls \in {"pos"} \cup MovClasses \/ (cls = "mix" /\ (Big \/ L
                      \A k \in DOMAIN Moves(cls) : AdmMove(Moves(cls)[k]) /\ LawRigid(goal, s, Moves(cls)[k])
 LawMovedOri     == (cls = "ori" /\ Len(goal) = 1 /\ (Big \/ goal[1].ori.a % 8 = 0)) =>       \* quick: every 8th interval start
                      \A k \in DOMAIN MovesO : LawRigid(goal, s, MovesO[k])
+(* file route: the goal moves once per planning-problem motion, never with the scenario, in any order; the motion is rigid *)
+LawFile         == cls = "file" => \A k \in DOMAIN FileMoves :
+                      /\ LawFileOrder(goal, FileMoves[k]) /\ LawRigid(goal, s, FileMoves[k])
+                      /\ \A h \in DOMAIN FileHists : AdmHist(FileHists[h]) /\
+                            FileReached(goal, FileMoves[k], FileHists[h], s) \in Verdict
 (* action properties *)
 Monotone  == [][goal' # goal => Leq3(Reached(goal, s), Reached(goal', s))]_vars      \* adding a goal state never turns T into F
 TurnInv   == [][s' # s => Compat(Reached(goal, s), Reached(goal', s'))]_vars         \* a full turn changes nothing (up to the band)
@@ -177,15 +203,21 @@ TurnInv   == [][s' # s => Compat(Reached(goal, s), Reached(goal', s'))]_vars    
 (* ---- generation ---- *)
 (* `bands` = number of probes whose expected verdict is EITHER: evidence only (how much of the space the bands take) *)
 IsMov == cls \in MovClasses
+IsFile == cls = "file"
 MovBands == Cardinality(UNION {LET mp == MovedProbes(cls, Moves(cls)[k]) IN
                                  {<<k, i>> : i \in {j \in DOMAIN mp : MovedReached(goal, Moves(cls)[k], mp[j]) = "EITHER"}}
                                : k \in DOMAIN Moves(cls)})
 Emit == PrintT(<<"CASE", ToJson([cls |-> cls, goal |-> goal,
-                                 states |-> IF IsMov THEN <<Probes(cls)[1]>> ELSE Probes(cls),
+                                 states |-> IF IsMov THEN <<Probes(cls)[1]>> ELSE IF IsFile THEN <<>> ELSE Probes(cls),
                                  trajs |-> IF cls = "mix" THEN MixTrajs ELSE IF cls = "pos" THEN PosTrajs ELSE <<>>,
                                  moves   |-> IF IsMov THEN Moves(cls) ELSE <<>>,
                                  mstates |-> IF IsMov THEN [k \in DOMAIN Moves(cls) |-> MovedProbes(cls, Moves(cls)[k])] ELSE <<>>,
                                  mtrajs  |-> IF IsMov THEN [k \in DOMAIN Moves(cls) |-> MovTrajs(cls, Moves(cls)[k])] ELSE <<>>,
-                                 bands |-> IF IsMov THEN MovBands
+                                 lanes   |-> IF IsFile THEN FileLanes ELSE <<>>,
+                                 fmoves  |-> IF IsFile THEN FileMoves ELSE <<>>,
+                                 fhists  |-> IF IsFile THEN FileHists ELSE <<>>,
+                                 fstates |-> IF IsFile THEN [k \in DOMAIN FileMoves |-> FileProbes(FileMoves[k])] ELSE <<>>,
+                                 ftrajs  |-> IF IsFile THEN [k \in DOMAIN FileMoves |-> FileTrajs(FileMoves[k])] ELSE <<>>,
+                                 bands |-> IF IsFile THEN 0 ELSE IF IsMov THEN MovBands
                                            ELSE Cardinality({i \in DOMAIN Probes(cls) : Reached(goal, Probes(cls)[i]) = "EITHER"})])>>)
 =================================================================================
